@@ -285,9 +285,15 @@ def _analyze_command(
         # included, even inside single quotes (a['$(cmd)']=1 runs cmd)
         subscript = _ASSIGNMENT_RE.match(word_value)
         if subscript and subscript.group(1):
+            # The subscript may hold brackets of its own (a['$(b[$(c)]=v; cmd)']=1): scan up to
+            # the last "]=" / "]+=" of the word rather than to the first "]"
+            close = max(word_value.rfind("]="), word_value.rfind("]+="))
             decisions.extend(
                 _analyze_string_cmdsubs(
-                    subscript.group(1)[1:-1], config, cwd, remote=remote
+                    word_value[word_value.index("[") + 1 : close],
+                    config,
+                    cwd,
+                    remote=remote,
                 )
             )
         # Check if this is a pure cmdsub (entire word is just a cmdsub)
